@@ -264,6 +264,15 @@ def loop_as_function(fi, loop, results, name=None):
     from ..core.db import FuncInfo
     body = copy.deepcopy(loop.body)
     exposed, _ = upward_exposed(loop.body, frozenset())
+    # local closures of the enclosing function that the body calls are defined again inside the generated function (their free
+    # names -- the lists they append to, the grids they read -- become parameters like every other name read before assignment)
+    used = {n.id for st in loop.body for n in ast.walk(st) if isinstance(n, ast.Name)}
+    closures = [st for st in fi.node.body if isinstance(st, ast.FunctionDef) and st.name in used]
+    for cdef in closures:
+        own = {a.arg for a in cdef.args.args + cdef.args.kwonlyargs} | {n.id for n in ast.walk(cdef) if isinstance(n, ast.Name) and isinstance(n.ctx, ast.Store)}
+        free = {n.id for n in ast.walk(cdef) if isinstance(n, ast.Name) and isinstance(n.ctx, ast.Load)} - own
+        exposed = (set(exposed) | free) - {cdef.name}
+    body = [copy.deepcopy(c) for c in closures] + body
     tgt = sorted(_store_names(loop.target)) if isinstance(loop, ast.For) else []
     mod = fi.module
     global_names = set(getattr(mod, 'functions', {})) | set(getattr(mod, 'imports', {})) | set(getattr(mod, 'classes', {})) | set(getattr(mod, 'assigns', {}))
